@@ -47,7 +47,7 @@ IMPL_PARALLEL = True
 
 
 def cases(rng, tier):
-    n = {'quick': 240, 'thorough': 2500, 'search': 300}[tier]
+    n = {'quick': 420, 'thorough': 2500, 'search': 300}[tier]
     out = []
     for k in range(n):
         kind = rng.choice(['compress', 'compress', 'compress', 'from_vector'])
@@ -59,7 +59,7 @@ def cases(rng, tier):
                     'tol_kind': tol_kind, 'tol_frac': rng.random(), 'Dmax': rng.choice([2, 3, 4, 6])})
     # wide first bonds: L = 2, 3 with d = 4..6 and few distinct charges, so that the first truncated bond carries several Schmidt
     # values in each of two or three sectors (a truncation applied per sector instead of to the whole bond shows only there)
-    for k in range({'quick': 40, 'thorough': 300, 'search': 60}[tier]):
+    for k in range({'quick': 80, 'thorough': 300, 'search': 60}[tier]):
         L = rng.choice([2, 2, 3])
         out.append({'kind': 'compress', 'seed': rng.getrandbits(30), 'L': L, 'd': rng.choice([4, 5, 6] if L == 2 else [4]),
                     'qclass': rng.choice(['sorted', 'sorted', 'unsorted', 'zero']), 'mode': rng.choice(['left', 'right']),
